@@ -759,6 +759,9 @@ Inner(e) == IF e.k = "bin" THEN "bin-" \o OpClass(e.op) ELSE IF e.k = "un" THEN 
 RECURSIVE Feats(_, _, _)
 RECURSIVE FeatsSeq(_, _, _)
 FeatsSeq(es, sc, P) == IF es = <<>> THEN {} ELSE Feats(es[1], sc, P) \cup FeatsSeq(Tail(es), sc, P)
+\* the operand that stands immediately before the operator of a binary expression
+RECURSIVE RightmostLeaf(_)
+RightmostLeaf(e) == IF e.k = "bin" THEN RightmostLeaf(e.r) ELSE IF e.k \in {"paren", "un"} THEN RightmostLeaf(e.e) ELSE e
 Feats(e, sc, P) ==
   CASE e.k = "lit" -> {"lit:" \o e.lk}
     [] e.k = "ident" -> {"ident:" \o TypeOf(e, sc, P)}
@@ -769,6 +772,9 @@ Feats(e, sc, P) ==
     [] e.k = "bin" -> {"bin:" \o e.op \o ":" \o TypeOf(e.l, sc, P) \o ":" \o TypeOf(e.r, sc, P),
                        "binshape:" \o e.op \o ":" \o Inner(e.l) \o ":" \o Inner(e.r)}
                       \cup (IF e.l.k = "ident" /\ e.l = e.r THEN {"bin-same-ident:" \o e.op \o ":" \o TypeOf(e.l, sc, P)} ELSE {})
+                      \* `<` of float kind whose left operand ENDS in an int (promoted where it stands, immediately before the `<`)
+                      \cup (IF e.op = "<" /\ e.l.k = "bin" /\ TypeOf(e.l, sc, P) = "float" /\ TypeOf(RightmostLeaf(e.l), sc, P) = "int"
+                            THEN {"promoted-int-before-lt"} ELSE {})
                       \cup (IF e.l.k = "paren" THEN {"grp:" \o OpClass(e.op) \o ":L:" \o Inner(e.l.e)} ELSE {})
                       \cup (IF e.r.k = "paren" THEN {"grp:" \o OpClass(e.op) \o ":R:" \o Inner(e.r.e)} ELSE {})
                       \cup Feats(e.l, sc, P) \cup Feats(e.r, sc, P)
